@@ -20,6 +20,7 @@ import (
 	"go/parser"
 	"go/printer"
 	"go/token"
+	"go/types"
 	"path/filepath"
 	"sort"
 	"strconv"
@@ -1036,6 +1037,9 @@ func generate(c *gen.Ctx, l *gen.Lean) error {
 	if err := limitSites(c, l, sv); err != nil {
 		return err
 	}
+	if err := codecState(l, s5P, drP); err != nil {
+		return err
+	}
 	return nil
 }
 
@@ -1291,6 +1295,248 @@ deriving DecidableEq, Repr
 	}
 
 	// uplink: a client session's limit is derived from the very address its packets are sent to
+	return nil
+}
+
+// ---------- state the codecs carry from packet to packet ----------
+
+// codecState: (1) socks5.DomainCache (the target-address parser state of the none / SOCKS5 / ss2022 server
+// unpackers) must keep VALUE COPIES of domain names only: its fields are pinned, and every assignment to receiver
+// state and every argument handed to a method of receiver state inside ConnAddrFromSlice must not be slice-typed
+// (a `b[2:domainEnd]` kept across calls aliases the caller's packet buffer); (2) the resolver cache of
+// direct.DirectPacketClientPacker.updateDomainIPCache is translated into an op program (ResOp).
+func codecState(l *gen.Lean, s5 *gen.Pkg, dr *gen.Pkg) error {
+	// --- DomainCache ---
+	var fields []string
+	for _, f := range s5.Files {
+		for _, d := range f.Decls {
+			gd, ok := d.(*ast.GenDecl)
+			if !ok || gd.Tok != token.TYPE {
+				continue
+			}
+			for _, sp := range gd.Specs {
+				ts := sp.(*ast.TypeSpec)
+				if ts.Name.Name != "DomainCache" {
+					continue
+				}
+				st, ok := ts.Type.(*ast.StructType)
+				if !ok {
+					return fmt.Errorf("socks5.DomainCache is not a struct")
+				}
+				for _, fl := range st.Fields.List {
+					for _, n := range fl.Names {
+						fields = append(fields, n.Name+" "+s5.Src(fl.Type))
+					}
+				}
+			}
+		}
+	}
+	if want := "handleByDomain *cache.BoundedCache[string, unique.Handle[string]]"; strings.Join(fields, "; ") != want {
+		return fmt.Errorf("socks5.DomainCache: fields are %q, expected %q (state that is not a string-keyed value cache is not modelled)", fields, want)
+	}
+	l.Comment("socks5.DomainCache: fields `%s`", strings.Join(fields, "; "))
+	fd, err := s5.Func("*DomainCache", "ConnAddrFromSlice")
+	if err != nil {
+		return err
+	}
+	if fd.Recv == nil || len(fd.Recv.List[0].Names) != 1 {
+		return fmt.Errorf("socks5.DomainCache.ConnAddrFromSlice: receiver")
+	}
+	recv := fd.Recv.List[0].Names[0].Name
+	rooted := func(e ast.Expr) bool { // e is recv.x.y…
+		for {
+			switch x := e.(type) {
+			case *ast.SelectorExpr:
+				e = x.X
+			case *ast.Ident:
+				return x.Name == recv
+			default:
+				return false
+			}
+		}
+	}
+	isSlice := func(e ast.Expr) bool {
+		tv, ok := s5.Info.Types[e]
+		if !ok || tv.Type == nil {
+			return true // unknown: treat as unsafe
+		}
+		switch tv.Type.Underlying().(type) {
+		case *types.Slice, *types.Pointer, *types.Array:
+			// pointers and arrays of bytes could alias as well; the only pointer stored is the cache itself
+			if _, isPtr := tv.Type.Underlying().(*types.Pointer); isPtr {
+				return !strings.Contains(tv.Type.String(), "BoundedCache")
+			}
+			return true
+		}
+		return false
+	}
+	var bad []string
+	stores, calls := 0, 0
+	ast.Inspect(fd.Body, func(n ast.Node) bool {
+		switch x := n.(type) {
+		case *ast.AssignStmt:
+			for i, lh := range x.Lhs {
+				if rooted(lh) {
+					stores++
+					if i < len(x.Rhs) && isSlice(x.Rhs[i]) {
+						bad = append(bad, s5.Src(x))
+					}
+				}
+			}
+		case *ast.CallExpr:
+			if sel, ok := x.Fun.(*ast.SelectorExpr); ok && rooted(sel.X) {
+				calls++
+				for _, a := range x.Args {
+					if isSlice(a) {
+						bad = append(bad, s5.Src(x))
+					}
+				}
+			}
+		}
+		return true
+	})
+	if len(bad) > 0 {
+		return fmt.Errorf("socks5.DomainCache.ConnAddrFromSlice keeps or hands on a slice of the caller's buffer: %q", bad)
+	}
+	if stores != 1 || calls != 2 {
+		return fmt.Errorf("socks5.DomainCache.ConnAddrFromSlice: %d stores into receiver state and %d calls on it (expected 1 and 2: cache creation, GetEntry, InsertUnchecked)", stores, calls)
+	}
+	have := map[string]bool{}
+	ast.Inspect(fd.Body, func(n ast.Node) bool {
+		if st, ok := n.(ast.Stmt); ok {
+			have[s5.Src(st)] = true
+		}
+		return true
+	})
+	for _, w := range []string{
+		"domainBytes := b[2:domainEnd]",
+		"entry, ok := c.handleByDomain.GetEntry(string(domainBytes))",
+		"handle := unique.Make(string(domainBytes))",
+		"domain = handle.Value()",
+		"c.handleByDomain.InsertUnchecked(domain, handle)",
+		"domain = entry.Key",
+		"addr, err := conn.AddrFromDomainPort(domain, port)",
+	} {
+		if !have[w] {
+			return fmt.Errorf("socks5.DomainCache.ConnAddrFromSlice: statement `%s` not found", w)
+		}
+		l.Comment("socks5.*DomainCache.ConnAddrFromSlice: `%s`", w)
+	}
+	size := ""
+	ast.Inspect(fd.Body, func(n ast.Node) bool {
+		if vs, ok := n.(*ast.ValueSpec); ok && len(vs.Names) == 1 && vs.Names[0].Name == "domainCacheSize" && len(vs.Values) == 1 {
+			if v, ok := s5.EvalInt(vs.Values[0]); ok {
+				size = v
+			}
+		}
+		return true
+	})
+	if size == "" {
+		return fmt.Errorf("socks5.DomainCache.ConnAddrFromSlice: const domainCacheSize not found")
+	}
+	l.NatDef("domainCacheSize", size, "socks5.(*DomainCache).ConnAddrFromSlice: const domainCacheSize")
+
+	// --- DirectPacketClientPacker.updateDomainIPCache ---
+	ufd, err := dr.Func("*DirectPacketClientPacker", "updateDomainIPCache")
+	if err != nil {
+		return err
+	}
+	name := "direct.*DirectPacketClientPacker.updateDomainIPCache"
+	domExpr := map[string]bool{"targetAddr.Domain()": true}
+	var ops []string
+	emit := func(op, src string) { ops = append(ops, "  ."+op+",  -- "+src) }
+	var tr func(list []ast.Stmt, top bool) error
+	tr = func(list []ast.Stmt, top bool) error {
+		for i, st := range list {
+			src := dr.Src(st)
+			switch x := st.(type) {
+			case *ast.AssignStmt:
+				if len(x.Lhs) == 1 && len(x.Rhs) == 1 && x.Tok == token.DEFINE && dr.Src(x.Rhs[0]) == "targetAddr.Domain()" {
+					domExpr[dr.Src(x.Lhs[0])] = true // a local alias of the domain
+					continue
+				}
+				if len(x.Lhs) == 2 && len(x.Rhs) == 1 && dr.Src(x.Lhs[0]) == "ip" && dr.Src(x.Lhs[1]) == "err" && dr.Src(x.Rhs[0]) == "targetAddr.ResolveIP(ctx, p.network)" {
+					emit("resolve", src)
+					continue
+				}
+				if len(x.Lhs) == 1 && len(x.Rhs) == 1 && x.Tok == token.ASSIGN {
+					lhs, rhs := dr.Src(x.Lhs[0]), dr.Src(x.Rhs[0])
+					if lhs == "p.cachedDomain" && domExpr[rhs] {
+						emit("setDomain", src)
+						continue
+					}
+					if lhs == "p.cachedDomainIP" && rhs == "ip" {
+						emit("setIP", src)
+						continue
+					}
+				}
+				return fmt.Errorf("%s: unrecognised assignment `%s`", name, src)
+			case *ast.IfStmt:
+				if x.Init != nil || x.Else != nil {
+					return fmt.Errorf("%s: unrecognised conditional `%s`", name, src)
+				}
+				c, ok := x.Cond.(*ast.BinaryExpr)
+				if !ok {
+					return fmt.Errorf("%s: unrecognised condition `%s`", name, dr.Src(x.Cond))
+				}
+				l, r := dr.Src(c.X), dr.Src(c.Y)
+				isCmp := (l == "p.cachedDomain" && domExpr[r]) || (r == "p.cachedDomain" && domExpr[l])
+				body := dr.Src(x.Body)
+				switch {
+				case isCmp && c.Op == token.EQL && body == "{ return nil }":
+					emit("returnIfCached", src)
+				case isCmp && c.Op == token.NEQ && top && i == len(list)-2 && dr.Src(list[len(list)-1]) == "return nil":
+					// if cached != domain { BODY }; return nil  ==  if cached == domain { return nil }; BODY; return nil
+					emit("returnIfCached", "if "+dr.Src(x.Cond)+" { … } return nil")
+					if err := tr(x.Body.List, false); err != nil {
+						return err
+					}
+				case l == "err" && r == "nil" && c.Op == token.NEQ && body == "{ return err }":
+					emit("returnOnErr", src)
+				default:
+					return fmt.Errorf("%s: unrecognised conditional `%s`", name, src)
+				}
+			case *ast.ReturnStmt:
+				if src != "return nil" || !top || i != len(list)-1 {
+					return fmt.Errorf("%s: unrecognised return `%s`", name, src)
+				}
+			default:
+				return fmt.Errorf("%s: unrecognised statement `%s`", name, src)
+			}
+		}
+		return nil
+	}
+	if err := tr(ufd.Body.List, true); err != nil {
+		return err
+	}
+	// the packer uses the cache after the update: destAddrPort = netip.AddrPortFrom(p.cachedDomainIP, targetAddr.Port())
+	pfd, err := dr.Func("*DirectPacketClientPacker", "PackInPlace")
+	if err != nil {
+		return err
+	}
+	phave := map[string]bool{}
+	ast.Inspect(pfd.Body, func(n ast.Node) bool {
+		if st, ok := n.(ast.Stmt); ok {
+			phave[dr.Src(st)] = true
+		}
+		return true
+	})
+	for _, w := range []string{"err = p.updateDomainIPCache(ctx, targetAddr)", "destAddrPort = netip.AddrPortFrom(p.cachedDomainIP, targetAddr.Port())", "destAddrPort = targetAddr.IPPort()"} {
+		if !phave[w] {
+			return fmt.Errorf("direct.*DirectPacketClientPacker.PackInPlace: statement `%s` not found", w)
+		}
+	}
+	var sb strings.Builder
+	for i, o := range ops {
+		code, cm, _ := strings.Cut(o, ",  -- ")
+		sep := ","
+		if i == len(ops)-1 {
+			sep = ""
+		}
+		sb.WriteString(code + sep + "  -- " + cm + "\n")
+	}
+	l.Raw("/-- operations of `DirectPacketClientPacker.updateDomainIPCache` -/\ninductive ResOp\n  | returnIfCached  -- if p.cachedDomain == targetAddr.Domain() { return nil }\n  | resolve         -- ip, err := targetAddr.ResolveIP(ctx, p.network)\n  | returnOnErr     -- if err != nil { return err }\n  | setDomain       -- p.cachedDomain = targetAddr.Domain()\n  | setIP           -- p.cachedDomainIP = ip\nderiving DecidableEq, Repr\n")
+	l.Raw(fmt.Sprintf("/-- %s, statement by statement -/\ndef updateDomainIPCacheProg : List ResOp := [\n%s]\n", name, sb.String()))
 	return nil
 }
 
